@@ -205,6 +205,9 @@ type rtCase struct {
 	Plans    []modPlan     `json:"plans"`
 	StopAt   time.Duration `json:"stop_requested_at"` // <0: never (only on failure)
 	StopOnFl bool          `json:"stop_all_on_failure"`
+	// PreStop: the module service of this module is stopped before the manager starts anything (New -> Terminated:
+	// it never runs); -1 = none. Its dependants must then not be started.
+	PreStop int `json:"module_service_stopped_before_start"`
 }
 
 func runRuntime(t *testing.T, run *vt.Run, c vt.CaseID, rc rtCase) {
@@ -364,6 +367,12 @@ func runRuntime(t *testing.T, run *vt.Run, c vt.CaseID, rc rtCase) {
 		if rc.StopOnFl {
 			mgr.AddListener(services.NewManagerListener(nil, nil, func(services.Service) { mgr.StopAsync() }))
 		}
+		if rc.PreStop >= 0 {
+			if w := wrapperOf[rc.PreStop]; w != nil {
+				w.StopAsync()
+				run.Count("module_services_stopped_before_start", 1)
+			}
+		}
 		_ = mgr.StartAsync(context.Background())
 		var stoppedAt time.Duration = -1
 		if rc.StopAt >= 0 {
@@ -504,7 +513,7 @@ func minPos(a, b time.Duration) time.Duration {
 }
 
 func randomRuntime(rng *rand.Rand, g graph) rtCase {
-	rc := rtCase{Graph: g, StopAt: -1, StopOnFl: true}
+	rc := rtCase{Graph: g, StopAt: -1, StopOnFl: true, PreStop: -1}
 	for i := 0; i < g.N; i++ {
 		p := modPlan{HasService: rng.IntN(5) != 0, StartLat: time.Duration(rng.IntN(5)) * time.Second, StopLat: time.Duration(rng.IntN(5)) * time.Second}
 		rc.Plans = append(rc.Plans, p)
@@ -531,6 +540,9 @@ func randomRuntime(rng *rand.Rand, g graph) rtCase {
 	}
 	if rng.IntN(6) == 0 {
 		rc.StopOnFl = false
+	}
+	if rng.IntN(6) == 0 {
+		rc.PreStop = rng.IntN(g.N)
 	}
 	return rc
 }
